@@ -5,6 +5,7 @@ import (
 	"go/constant"
 	"go/token"
 	"go/types"
+	"regexp"
 	"sort"
 	"strings"
 
@@ -102,6 +103,16 @@ func (sc *symCtx) sym(v ssa.Value, depth int) string {
 	case *ssa.ChangeInterface:
 		return sc.sym(x.X, depth+1)
 	case *ssa.BinOp:
+		// strings.IndexFunc(s, f) >= 0  ==  strings.ContainsFunc(s, f)
+		if c, ok := x.X.(*ssa.Call); ok {
+			if ci := callOf(c); ci.static != nil && ci.static.String() == "strings.IndexFunc" {
+				if k, isK := constInt(x.Y); isK && (x.Op == token.GEQ && k == 0 || x.Op == token.NEQ && k == -1 || x.Op == token.GTR && k == -1) {
+					if s, ok := sc.runeAnyOf(c.Call.Args[0], c.Call.Args[1], depth); ok {
+						return s
+					}
+				}
+			}
+		}
 		// rangeindex: phi+1 is the index of the current iteration
 		if ph, ok := x.X.(*ssa.Phi); ok && ph.Comment == "rangeindex" && x.Op == token.ADD {
 			return "i"
@@ -135,6 +146,9 @@ func (sc *symCtx) sym(v ssa.Value, depth int) string {
 		return "&local"
 	case *ssa.Call:
 		ci := callOf(x)
+		if s, ok := sc.runeAny(x); ok {
+			return s
+		}
 		var args []string
 		for _, a := range x.Call.Args {
 			args = append(args, sc.sym(a, depth+1))
@@ -156,6 +170,36 @@ func (sc *symCtx) sym(v ssa.Value, depth int) string {
 	}
 	return fmt.Sprintf("?%T", v)
 }
+
+// runeAny: `strings.ContainsFunc(s, f)` with f a pure module rune predicate is
+// the existential over the runes of s of f's exact rune set, the same formula
+// a hand-written `for _, r := range s { if f(r) { return true } }` gets.
+func (sc *symCtx) runeAny(c *ssa.Call) (string, bool) {
+	ci := callOf(c)
+	if ci.static == nil || ci.static.String() != "strings.ContainsFunc" || len(c.Call.Args) != 2 {
+		return "", false
+	}
+	return sc.runeAnyOf(c.Call.Args[0], c.Call.Args[1], 0)
+}
+
+func (sc *symCtx) runeAnyOf(str, f ssa.Value, depth int) (string, bool) {
+	var fn *ssa.Function
+	switch y := cv(f).(type) {
+	case *ssa.Function:
+		fn = y
+	case *ssa.MakeClosure:
+		if g, ok := y.Fn.(*ssa.Function); ok && len(y.Bindings) == 0 {
+			fn = g
+		}
+	}
+	set, ok := runeSetOfFunc(fn)
+	if !ok {
+		return "", false
+	}
+	return "RUNES-ANY[runes of " + sc.sym(str, depth+1) + "]{" + set + "}", true
+}
+
+var runesAnyRE = regexp.MustCompile(`^RUNES-ANY\[(.*)\]\{([^{}]*)\}$`)
 
 // ---------- path enumeration ----------
 
@@ -382,124 +426,215 @@ func (sh predShape) dnf() (string, []string) {
 	return s, notes
 }
 
-// runeIntervals decides, for a rune-range loop, exactly which runes make the
-// in-loop decision return true, by evaluating the comparison DAG on one
-// representative per region between the constants it compares against.
-func (P *Prog) runeIntervals(fn *ssa.Function, l *natLoop) (string, bool) {
-	// find the rune value
-	var rv ssa.Value
-	var bodyEntry *ssa.BasicBlock
-	for _, in := range l.header.Instrs {
-		if nx, ok := in.(*ssa.Next); ok && nx.IsString {
-			if refs := nx.Referrers(); refs != nil {
-				for _, rf := range *refs {
-					if ex, ok := rf.(*ssa.Extract); ok && ex.Index == 2 {
-						rv = ex
-					}
-				}
-			}
-		}
+// ---------- exact evaluation of rune predicates ----------
+
+// runeInterp interprets pure rune code: comparisons of one rune value against
+// constants, boolean connectives (as control flow or phis), and calls of
+// module functions of type func(rune) bool that are themselves such code.
+type runeInterp struct {
+	consts  map[int64]bool
+	okShape bool
+	phiVals map[*ssa.Phi]runeVal // values of the phis on the path being run
+}
+
+func isRunePredicate(fn *ssa.Function) bool {
+	if fn == nil || fn.Blocks == nil || len(fn.Params) != 1 || fn.Signature.Results().Len() != 1 || !inModule(funcPkgPath(fn)) {
+		return false
 	}
-	if iff := condOf(l.header); iff != nil {
-		bodyEntry = l.header.Succs[0]
+	pb, ok1 := fn.Params[0].Type().Underlying().(*types.Basic)
+	rb, ok2 := fn.Signature.Results().At(0).Type().Underlying().(*types.Basic)
+	return ok1 && ok2 && pb.Kind() == types.Int32 && rb.Kind() == types.Bool
+}
+
+// collect gathers the integer constants the code compares against and checks
+// that nothing else than pure rune code occurs in the blocks.
+func (ri *runeInterp) collect(blocks []*ssa.BasicBlock, rv ssa.Value, depth int) {
+	if depth > 3 {
+		ri.okShape = false
+		return
 	}
-	if rv == nil || bodyEntry == nil {
-		return "", false
-	}
-	consts := map[int64]bool{}
-	okShape := true
-	for b := range l.body {
+	for _, b := range blocks {
 		for _, in := range b.Instrs {
 			switch x := in.(type) {
 			case *ssa.BinOp:
-				var other ssa.Value
-				if x.X == rv {
-					other = x.Y
-				} else if x.Y == rv {
-					other = x.X
+				for _, o := range []ssa.Value{x.X, x.Y} {
+					if k, ok := constInt(o); ok {
+						ri.consts[k] = true
+					}
+				}
+			case *ssa.Call:
+				ci := callOf(x)
+				if ci.static != nil && isRunePredicate(ci.static) && len(x.Call.Args) == 1 {
+					ri.collect(ci.static.Blocks, ci.static.Params[0], depth+1)
 				} else {
-					okShape = false
-					continue
+					ri.okShape = false
 				}
-				k, ok := constInt(other)
-				if !ok {
-					okShape = false
-					continue
-				}
-				consts[k] = true
-			case *ssa.If, *ssa.Jump, *ssa.Next, *ssa.Extract, *ssa.Phi, *ssa.Return, *ssa.DebugRef:
+			case *ssa.If, *ssa.Jump, *ssa.Next, *ssa.Extract, *ssa.Phi, *ssa.Return, *ssa.DebugRef, *ssa.UnOp, *ssa.Convert, *ssa.ChangeType:
 			default:
-				okShape = false
+				ri.okShape = false
 			}
 		}
 	}
-	if !okShape {
-		return "", false
+}
+
+type runeVal struct {
+	i    int64
+	b    bool
+	isB  bool
+	good bool
+}
+
+// value evaluates v with the rune bound to r; prev is the block control came from (for phis).
+func (ri *runeInterp) value(v ssa.Value, rv ssa.Value, r int64, prev *ssa.BasicBlock, depth int) runeVal {
+	if v == rv {
+		return runeVal{i: r, good: true}
 	}
+	switch x := v.(type) {
+	case *ssa.Const:
+		if b, ok := constBool(x); ok {
+			return runeVal{b: b, isB: true, good: true}
+		}
+		if k, ok := constInt(x); ok {
+			return runeVal{i: k, good: true}
+		}
+	case *ssa.Convert:
+		return ri.value(x.X, rv, r, prev, depth)
+	case *ssa.ChangeType:
+		return ri.value(x.X, rv, r, prev, depth)
+	case *ssa.UnOp:
+		if x.Op == token.NOT {
+			a := ri.value(x.X, rv, r, prev, depth)
+			if a.good && a.isB {
+				return runeVal{b: !a.b, isB: true, good: true}
+			}
+		}
+	case *ssa.BinOp:
+		a, c := ri.value(x.X, rv, r, prev, depth), ri.value(x.Y, rv, r, prev, depth)
+		if !a.good || !c.good {
+			return runeVal{}
+		}
+		if a.isB && c.isB {
+			switch x.Op {
+			case token.AND:
+				return runeVal{b: a.b && c.b, isB: true, good: true}
+			case token.OR:
+				return runeVal{b: a.b || c.b, isB: true, good: true}
+			case token.EQL:
+				return runeVal{b: a.b == c.b, isB: true, good: true}
+			case token.NEQ, token.XOR:
+				return runeVal{b: a.b != c.b, isB: true, good: true}
+			}
+			return runeVal{}
+		}
+		if a.isB || c.isB {
+			return runeVal{}
+		}
+		var res bool
+		switch x.Op {
+		case token.LSS:
+			res = a.i < c.i
+		case token.LEQ:
+			res = a.i <= c.i
+		case token.GTR:
+			res = a.i > c.i
+		case token.GEQ:
+			res = a.i >= c.i
+		case token.EQL:
+			res = a.i == c.i
+		case token.NEQ:
+			res = a.i != c.i
+		case token.ADD:
+			return runeVal{i: a.i + c.i, good: true}
+		case token.SUB:
+			return runeVal{i: a.i - c.i, good: true}
+		default:
+			return runeVal{}
+		}
+		return runeVal{b: res, isB: true, good: true}
+	case *ssa.Phi:
+		if pv, ok := ri.phiVals[x]; ok {
+			return pv
+		}
+	case *ssa.Call:
+		ci := callOf(x)
+		if ci.static != nil && isRunePredicate(ci.static) && len(x.Call.Args) == 1 && depth < 3 {
+			a := ri.value(x.Call.Args[0], rv, r, prev, depth)
+			if a.good && !a.isB {
+				if res, ok := ri.run(ci.static.Blocks[0], nil, ci.static.Params[0], a.i, nil, depth+1); ok {
+					return runeVal{b: res, isB: true, good: true}
+				}
+			}
+		}
+	}
+	return runeVal{}
+}
+
+// run executes from block b until a return (its boolean result) or until
+// control reaches stop (the loop header: "continue", reported as false).
+func (ri *runeInterp) run(b, prev *ssa.BasicBlock, rv ssa.Value, r int64, stop *ssa.BasicBlock, depth int) (bool, bool) {
+	savedPhis := ri.phiVals
+	ri.phiVals = map[*ssa.Phi]runeVal{}
+	defer func() { ri.phiVals = savedPhis }()
+	for steps := 0; steps < 400; steps++ {
+		// phis of b take the value of the edge control came in by (evaluated in parallel)
+		if prev != nil {
+			nv := map[*ssa.Phi]runeVal{}
+			for _, in := range b.Instrs {
+				ph, ok := in.(*ssa.Phi)
+				if !ok {
+					break
+				}
+				for i, p := range b.Preds {
+					if p == prev {
+						nv[ph] = ri.value(ph.Edges[i], rv, r, prev, depth)
+					}
+				}
+			}
+			for k, v := range nv {
+				ri.phiVals[k] = v
+			}
+		}
+		last := b.Instrs[len(b.Instrs)-1]
+		var next *ssa.BasicBlock
+		switch t := last.(type) {
+		case *ssa.Return:
+			if len(t.Results) != 1 {
+				return false, false
+			}
+			v := ri.value(t.Results[0], rv, r, prev, depth)
+			return v.b, v.good && v.isB
+		case *ssa.Jump:
+			next = b.Succs[0]
+		case *ssa.If:
+			c := ri.value(t.Cond, rv, r, prev, depth)
+			if !c.good || !c.isB {
+				return false, false
+			}
+			if c.b {
+				next = b.Succs[0]
+			} else {
+				next = b.Succs[1]
+			}
+		default:
+			return false, false
+		}
+		prev, b = b, next
+		if stop != nil && b == stop {
+			return false, true // continue with the next rune
+		}
+	}
+	return false, false
+}
+
+// intervals renders the set of runes for which eval is true, given the
+// constants the code compares against (one representative per region).
+func (ri *runeInterp) intervals(eval func(r int64) (bool, bool)) (string, bool) {
 	var pts []int64
-	for k := range consts {
+	for k := range ri.consts {
 		pts = append(pts, k-1, k, k+1)
 	}
 	pts = append(pts, 0, 0x10FFFF)
 	sort.Slice(pts, func(i, j int) bool { return pts[i] < pts[j] })
-	eval := func(r int64) (bool, bool) {
-		b := bodyEntry
-		for steps := 0; steps < 200; steps++ {
-			last := b.Instrs[len(b.Instrs)-1]
-			switch t := last.(type) {
-			case *ssa.Return:
-				v, ok := constBool(t.Results[0])
-				return v, ok
-			case *ssa.Jump:
-				b = b.Succs[0]
-			case *ssa.If:
-				bo, ok := t.Cond.(*ssa.BinOp)
-				if !ok {
-					return false, false
-				}
-				var k int64
-				lhsIsR := bo.X == rv
-				if lhsIsR {
-					k, _ = constInt(bo.Y)
-				} else {
-					k, _ = constInt(bo.X)
-				}
-				a, c := r, k
-				if !lhsIsR {
-					a, c = k, r
-				}
-				var res bool
-				switch bo.Op {
-				case token.LSS:
-					res = a < c
-				case token.LEQ:
-					res = a <= c
-				case token.GTR:
-					res = a > c
-				case token.GEQ:
-					res = a >= c
-				case token.EQL:
-					res = a == c
-				case token.NEQ:
-					res = a != c
-				default:
-					return false, false
-				}
-				if res {
-					b = b.Succs[0]
-				} else {
-					b = b.Succs[1]
-				}
-			default:
-				return false, false
-			}
-			if b == l.header {
-				return false, true // continue with next rune
-			}
-		}
-		return false, false
-	}
-	// build intervals from representative points
 	var ivs []string
 	start := int64(-1)
 	prevTrue := false
@@ -529,6 +664,69 @@ func (P *Prog) runeIntervals(fn *ssa.Function, l *natLoop) (string, bool) {
 		ivs = append(ivs, fmt.Sprintf("[%d,%d]", start, prevPt))
 	}
 	return strings.Join(ivs, ","), true
+}
+
+// runeSetOfFunc: the exact set of runes a module function func(rune) bool accepts.
+func runeSetOfFunc(fn *ssa.Function) (string, bool) {
+	if !isRunePredicate(fn) {
+		return "", false
+	}
+	ri := &runeInterp{consts: map[int64]bool{}, okShape: true}
+	ri.collect(fn.Blocks, fn.Params[0], 0)
+	if !ri.okShape {
+		return "", false
+	}
+	return ri.intervals(func(r int64) (bool, bool) {
+		return ri.run(fn.Blocks[0], nil, fn.Params[0], r, nil, 0)
+	})
+}
+
+// runeIntervals decides, for a rune-range loop, exactly which runes make the
+// in-loop decision return true, by evaluating the comparison DAG on one
+// representative per region between the constants it compares against.
+func (P *Prog) runeIntervals(fn *ssa.Function, l *natLoop) (string, bool) {
+	// find the rune value
+	var rv ssa.Value
+	var bodyEntry *ssa.BasicBlock
+	for _, in := range l.header.Instrs {
+		if nx, ok := in.(*ssa.Next); ok && nx.IsString {
+			if refs := nx.Referrers(); refs != nil {
+				for _, rf := range *refs {
+					if ex, ok := rf.(*ssa.Extract); ok && ex.Index == 2 {
+						rv = ex
+					}
+				}
+			}
+		}
+	}
+	if iff := condOf(l.header); iff != nil {
+		bodyEntry = l.header.Succs[0]
+	}
+	if rv == nil || bodyEntry == nil {
+		return "", false
+	}
+	ri := &runeInterp{consts: map[int64]bool{}, okShape: true}
+	var body []*ssa.BasicBlock
+	for b := range l.body {
+		if b != l.header {
+			body = append(body, b)
+		}
+	}
+	ri.collect(body, rv, 0)
+	// the header holds only the iteration itself
+	for _, in := range l.header.Instrs {
+		switch in.(type) {
+		case *ssa.If, *ssa.Next, *ssa.Extract, *ssa.Phi, *ssa.DebugRef:
+		default:
+			ri.okShape = false
+		}
+	}
+	if !ri.okShape {
+		return "", false
+	}
+	return ri.intervals(func(r int64) (bool, bool) {
+		return ri.run(bodyEntry, l.header, rv, r, l.header, 0)
+	})
 }
 
 // ---------- the table ----------
@@ -726,6 +924,10 @@ func (P *Prog) canonicalPredicate(cl *ssa.Function) (string, []string) {
 		return "[" + sh.domain + "] runes∈{" + set + "}", nil
 	}
 	s, _ := sh.dnf()
+	if m := runesAnyRE.FindStringSubmatch(s); m != nil && sh.loop == nil {
+		// the whole predicate is "some rune of the string is in the set": the form of the rune loop
+		return "[" + m[1] + "] runes∈{" + m[2] + "}", nil
+	}
 	// normalise the reflect receiver and regexp globals
 	s = strings.ReplaceAll(s, "(reflect.Value).Elem(reflect.ValueOf(val))", "RV")
 	for _, g := range []string{"emailRegex", "uuidRegex"} {
